@@ -206,6 +206,27 @@ def device_membership(ctx, rng):
         sc = dev.scale(xfact=-1.5, yfact=2.0)
         if abs(sc.film.area - 3.0 * dev.film.area) > 1e-9 * dev.film.area:
             ctx.fail("area:scale", "Device.scale does not multiply the film area by |fx fy|", dict(device=kind))
+        # device-level transforms: every polygon and the probe points move together, the original is untouched
+        before = [p_.points.copy() for p_ in dev.polygons]
+        pp0 = None if dev.probe_points is None else dev.probe_points.copy()
+        for tname, new_dev, fmap in (
+            ("scale", sc, lambda q: q * np.array([-1.5, 2.0])),
+            ("rotate", dev.rotate(90.0), lambda q: q @ np.array([[0.0, 1.0], [-1.0, 0.0]])),
+            ("translate", dev.translate(dx=0.7, dy=-0.4), lambda q: q + np.array([0.7, -0.4])),
+        ):
+            ctx.case(("device-transform", kind, tname), nontrivial=True)
+            ctx.count(f"device_transform:{tname}")
+            qq = far_from_boundaries([dev.film] + list(dev.holes), rng.uniform(-3.5, 3.5, size=(60, 2)))
+            img = fmap(qq)
+            ok_img = far_from_boundaries([new_dev.film] + list(new_dev.holes), img, eps=1e-6)
+            if len(ok_img) == len(img) and not np.array_equal(dev.contains_points(qq), new_dev.contains_points(img)):
+                ctx.fail(f"device-transform:{tname}", f"Device.{tname}: images of points inside/outside the device are not inside/outside the transformed device", dict(device=kind))
+            if pp0 is not None and (new_dev.probe_points is None or not np.allclose(new_dev.probe_points, fmap(pp0), atol=1e-12)):
+                ctx.fail(f"device-transform-probes:{tname}", f"Device.{tname}: probe points do not move with the shapes", dict(device=kind))
+            if any(not np.array_equal(p_.points, b_) for p_, b_ in zip(dev.polygons, before)) or (pp0 is not None and not np.array_equal(dev.probe_points, pp0)):
+                ctx.fail("operand-mutated", f"Device.{tname} mutated the original device", dict(device=kind))
+            if any(np.shares_memory(x.points, y.points) for x, y in zip(new_dev.polygons, dev.polygons)):
+                ctx.fail("aliasing", f"Device.{tname}: result shares polygon memory with the original", dict(device=kind))
     return first
 
 
